@@ -238,12 +238,17 @@ def ec_pubkey_add(pub, tweak, context=None):
         raise ValueError("Tweak should be 32 bytes long")
     pubkey = _pubkey_parse(pub)
     pubkey.compressed = True
+    if not pubkey.is_valid:
+        raise ValueError("Failed to tweak the public key")
     t = int.from_bytes(tweak, "big")
+    if t >= _key.SECP256K1_ORDER:
+        raise ValueError("Failed to tweak the public key")
     Q = _key.SECP256K1.affine(
         _key.SECP256K1.mul([(_key.SECP256K1_G, t), (pubkey.p, 1)])
     )
     if Q is None:
-        return None
+        # the sum is the point at infinity
+        raise ValueError("Failed to tweak the public key")
     return Q[0].to_bytes(32, "little") + Q[1].to_bytes(32, "little")
 
 
